@@ -2,6 +2,7 @@ use crate::engine::{Check, Ctx, Report};
 use serde_json::Value as J;
 
 pub mod c01;
+pub mod c02;
 pub mod c03;
 pub mod c04;
 pub mod c05;
@@ -27,6 +28,7 @@ pub struct Property {
 pub fn all() -> Vec<Property> {
     vec![
         Property { id: "C01", run: c01::run, replay: c01::replay },
+        Property { id: "C02", run: c02::run, replay: c02::replay },
         Property { id: "C03", run: c03::run, replay: c03::replay },
         Property { id: "C04", run: c04::run, replay: c04::replay },
         Property { id: "C05", run: c05::run, replay: c05::replay },
